@@ -582,6 +582,17 @@ theorem mount_nul_climb_repaired :
     (Ref.step demoGlue (.removedir "z\x00/..".toList)).2 = .err .InvalidCharsInPath := by
   decide
 
+/-- REPAIRED (/repo 433aea4): the inherited `FS.removetree` validates its path like every other method — before,
+it normalised it first, so on a MountFS `removetree("m1/z\0/..")` walked and emptied `m1` and a climbing path was
+reported as IllegalBackReference where the reference says InvalidCharsInPath -/
+theorem mount_removetree_nul_repaired :
+    (mstep demo (.removetree "m1/z\x00/..".toList)).2 = .err .InvalidCharsInPath ∧
+    (mstep (mstep demo (.removetree "m1/z\x00/..".toList)).1 (.exists_ "m1/d/g".toList)).2 = .ok (.bool true) ∧
+    (mstep demo (.removetree "z\x00/../..".toList)).2 = .err .InvalidCharsInPath ∧
+    (Ref.step demoGlue (.removetree "m1/z\x00/..".toList)).2 = .err .InvalidCharsInPath ∧
+    (Ref.step demoGlue (.removetree "z\x00/../..".toList)).2 = .err .InvalidCharsInPath := by
+  decide
+
 /-! ## the walker-based defaults and `makedirs` -/
 
 /-- **mount_bulk_partial.**  FULL statement (not proved): `mount_preserves_refinement` for
@@ -657,13 +668,13 @@ theorem prim_closed {σ : Type} (D : FS State) (F : FS σ) (ms : MState σ) (hc 
 (neither the MountFS nor any member, mounted or released, nor the default tree): `self.check()` comes first in
 every method MountFS defines, and every inherited default starts with one of them.  The class is
 FilesystemClosed except where the code looks at an ARGUMENT before `check()`: `openbin` validates its mode
-first (ValueError) and `removetree` normalises its path first (IllegalBackReference). -/
+first (ValueError).  (The inherited `removetree` used to normalise its path first — IllegalBackReference —;
+since /repo 433aea4 it starts with `validatepath`, i.e. with `check()`.) -/
 theorem mount_closed_is_final {σ : Type} (D : FS State) (F : FS σ) (ms : MState σ) (hc : ms.closed = true)
     (op : Op) (hop : op ≠ .close) :
     (MountFs.step D F ms op).1 = ms ∧
     ((MountFs.step D F ms op).2 = .err .FilesystemClosed ∨
-     (∃ p m, op = .openbin p m ∧ parseBinMode m = none ∧ (MountFs.step D F ms op).2 = .err .ValueError) ∨
-     (∃ p e, op = .removetree p ∧ normpath p = .err e ∧ (MountFs.step D F ms op).2 = .err e)) := by
+     (∃ p m, op = .openbin p m ∧ parseBinMode m = none ∧ (MountFs.step D F ms op).2 = .err .ValueError)) := by
   have one : ∀ pr : Prim, usedPrim pr = true → (∀ p m, pr = .openbin p m → (parseBinMode m).isSome = true) →
       ((Route.one pr).run (MountFs.sem D F) ms).1 = ms ∧
       ((Route.one pr).run (MountFs.sem D F) ms).2.1 = .err .FilesystemClosed := by
@@ -694,26 +705,12 @@ theorem mount_closed_is_final {σ : Type} (D : FS State) (F : FS σ) (ms : MStat
   case copy a b o => simp [MountFs.step, prog, baseCopy, Prog.run, va]
   case movedir a b o => simp [MountFs.step, prog, baseMovedir, Prog.run, va]
   case copydir a b o => simp [MountFs.step, prog, baseCopydir, Prog.run, va]
-  case removetree p =>
-    cases hn : normpath p with
-    | err e =>
-      refine ⟨by simp [MountFs.step, prog, baseRemovetree, hn, Prog.run], Or.inr (Or.inr ⟨p, e, rfl, hn, ?_⟩)⟩
-      simp [MountFs.step, prog, baseRemovetree, hn, Prog.run]
-    | ok n =>
-      have hrm : ∀ (n : Nat) (d : Str) (k : Prog),
-          (rmDir (n + 1) d k).run (MountFs.sem D F) ms = (ms, .err .FilesystemClosed, []) := by
-        intro n d k
-        simp only [rmDir, Prog.run, sc]
-        rfl
-      have hf : walkFuel = 4095 + 1 := rfl
-      simp only [MountFs.step, prog, baseRemovetree, hn]
-      rw [hf, hrm]
-      exact ⟨rfl, Or.inl rfl⟩
+  case removetree p => simp [MountFs.step, prog, baseRemovetree, Prog.run, va]
   case openbin p m =>
     cases hm : parseBinMode m with
     | none =>
       refine ⟨by simp [MountFs.step, prog, Route.one, Prog.run, MountFs.sem, MountFs.prim, hm],
-        Or.inr (Or.inl ⟨p, m, rfl, hm, by simp [MountFs.step, prog, Route.one, Prog.run, MountFs.sem, MountFs.prim, hm]⟩)⟩
+        Or.inr ⟨p, m, rfl, hm, by simp [MountFs.step, prog, Route.one, Prog.run, MountFs.sem, MountFs.prim, hm]⟩⟩
     | some md =>
       obtain ⟨h1, h2⟩ := plain (.openbin p m) rfl (by intro _ _ h; cases h; simp [hm]) rfl
       exact ⟨h1, Or.inl h2⟩
